@@ -21,6 +21,10 @@ Definition is_ws (b : N) : bool := (b =? 32) || (b =? 9) || (b =? 10) || (b =? 1
 Fixpoint skip_ws (s : str) : str :=
   match s with b :: s' => if is_ws b then skip_ws s' else s | [] => [] end.
 
+(** [hd_is c s]: the rest of [s] when its first byte is [c]. *)
+Definition hd_is (c : N) (s : str) : option str :=
+  match s with b :: r => if b =? c then Some r else None | [] => None end.
+
 Definition is_digit (b : N) : bool := (48 <=? b) && (b <=? 57).
 
 Definition hexval (b : N) : option N :=
@@ -65,17 +69,21 @@ Fixpoint pstring (fuel : nat) (s : str) (acc : str) : option (str * str) :=
                   | Some (n, s3) =>
                       if (56320 <=? n) && (n <=? 57343) then None
                       else if (55296 <=? n) && (n <=? 56319) then
-                        match s3 with
-                        | 92 :: 117 :: s4 =>
-                            match hex4 s4 with
-                            | Some (n2, s5) =>
-                                if (56320 <=? n2) && (n2 <=? 57343) then
-                                  pstring f s5
-                                    (rev (utf8_encode (65536 + (n - 55296) * 1024 + (n2 - 56320))) ++ acc)
-                                else None
+                        match hd_is 92 s3 with
+                        | Some t =>
+                            match hd_is 117 t with
+                            | Some s4 =>
+                                match hex4 s4 with
+                                | Some (n2, s5) =>
+                                    if (56320 <=? n2) && (n2 <=? 57343) then
+                                      pstring f s5
+                                        (rev (utf8_encode (65536 + (n - 55296) * 1024 + (n2 - 56320))) ++ acc)
+                                    else None
+                                | None => None
+                                end
                             | None => None
                             end
-                        | _ => None
+                        | None => None
                         end
                       else pstring f s3 (rev (utf8_encode n) ++ acc)
                   end
@@ -138,8 +146,7 @@ Definition num_overflows (n : numlit) : bool :=
   end.
 
 (** Number literal starting at [s] (the optional '-' included). *)
-Definition pnumber (s : str) : option (numlit * str) :=
-  let '(neg, s1) := match s with 45 :: r => (true, r) | _ => (false, s) end in
+Definition pnumber_body (neg : bool) (s1 : str) : option (numlit * str) :=
   match s1 with
   | [] => None
   | b :: r =>
@@ -155,11 +162,11 @@ Definition pnumber (s : str) : option (numlit * str) :=
       | None => None
       | Some (ds, s2) =>
           let frac_part :=
-            match s2 with
-            | 46 :: r2 =>
+            match hd_is 46 s2 with
+            | Some r2 =>
                 let '(fd, r3) := take_digits r2 in
                 match fd with [] => None | _ => Some (Some fd, r3) end
-            | _ => Some (None, s2)
+            | None => Some (None, s2)
             end in
           match frac_part with
           | None => None
@@ -168,10 +175,12 @@ Definition pnumber (s : str) : option (numlit * str) :=
                 match s3 with
                 | e :: r3 =>
                     if (e =? 101) || (e =? 69) then
-                      let '(eneg, r4) := match r3 with
-                                         | 43 :: r' => (false, r')
-                                         | 45 :: r' => (true, r')
-                                         | _ => (false, r3)
+                      let '(eneg, r4) := match hd_is 43 r3 with
+                                         | Some r' => (false, r')
+                                         | None => match hd_is 45 r3 with
+                                                   | Some r' => (true, r')
+                                                   | None => (false, r3)
+                                                   end
                                          end in
                       let '(ed, r5) := take_digits r4 in
                       match ed with [] => None | _ => Some (Some (eneg, ed), r5) end
@@ -187,6 +196,9 @@ Definition pnumber (s : str) : option (numlit * str) :=
           end
       end
   end.
+
+Definition pnumber (s : str) : option (numlit * str) :=
+  match hd_is 45 s with Some r => pnumber_body true r | None => pnumber_body false s end.
 
 Definition lit_true : str := [114; 117; 101].     (* "rue" *)
 Definition lit_false : str := [97; 108; 115; 101]. (* "alse" *)
@@ -219,16 +231,16 @@ Fixpoint pvalue (fuel : nat) (depth : N) (s : str) {struct fuel} : option (raw *
           else if b =? 91 then
             if depth <=? 1 then None
             else
-              match skip_ws r with
-              | 93 :: r' => Some (RArr [], r')
-              | r1 => parr f (depth - 1) r1 []
+              match hd_is 93 (skip_ws r) with
+              | Some r' => Some (RArr [], r')
+              | None => parr f (depth - 1) (skip_ws r) []
               end
           else if b =? 123 then
             if depth <=? 1 then None
             else
-              match skip_ws r with
-              | 125 :: r' => Some (RObj [], r')
-              | r1 => pobj f (depth - 1) r1 []
+              match hd_is 125 (skip_ws r) with
+              | Some r' => Some (RObj [], r')
+              | None => pobj f (depth - 1) (skip_ws r) []
               end
           else if (b =? 45) || is_digit b then
             match pnumber s with
@@ -246,10 +258,13 @@ with parr (fuel : nat) (depth : N) (s : str) (acc : list raw) {struct fuel} : op
       match pvalue f depth s with
       | None => None
       | Some (v, r) =>
-          match skip_ws r with
-          | 44 :: r' => parr f depth (skip_ws r') (v :: acc)
-          | 93 :: r' => Some (RArr (rev (v :: acc)), r')
-          | _ => None
+          match hd_is 44 (skip_ws r) with
+          | Some r' => parr f depth (skip_ws r') (v :: acc)
+          | None =>
+              match hd_is 93 (skip_ws r) with
+              | Some r' => Some (RArr (rev (v :: acc)), r')
+              | None => None
+              end
           end
       end
   end
@@ -258,26 +273,29 @@ with pobj (fuel : nat) (depth : N) (s : str) (acc : list (str * raw)) {struct fu
   match fuel with
   | O => None
   | S f =>
-      match s with
-      | 34 :: r =>
+      match hd_is 34 s with
+      | Some r =>
           match pstring (S (List.length r)) r [] with
           | None => None
           | Some (k, r1) =>
-              match skip_ws r1 with
-              | 58 :: r2 =>
+              match hd_is 58 (skip_ws r1) with
+              | Some r2 =>
                   match pvalue f depth (skip_ws r2) with
                   | None => None
                   | Some (v, r3) =>
-                      match skip_ws r3 with
-                      | 44 :: r4 => pobj f depth (skip_ws r4) ((k, v) :: acc)
-                      | 125 :: r4 => Some (RObj (rev ((k, v) :: acc)), r4)
-                      | _ => None
+                      match hd_is 44 (skip_ws r3) with
+                      | Some r4 => pobj f depth (skip_ws r4) ((k, v) :: acc)
+                      | None =>
+                          match hd_is 125 (skip_ws r3) with
+                          | Some r4 => Some (RObj (rev ((k, v) :: acc)), r4)
+                          | None => None
+                          end
                       end
                   end
-              | _ => None
+              | None => None
               end
           end
-      | _ => None
+      | None => None
       end
   end.
 
